@@ -1,8 +1,9 @@
 (* Extraction of the C15 model to OCaml: the dependency tuple and the order in which the random
-   values are drawn by Samplable.sampleAll.  Directives: ExtrOcamlBasic only. *)
+   values are drawn by Samplable.sampleAll; the order in which specifier resolution evaluates properties.  Directives: ExtrOcamlBasic only. *)
 From Coq Require Import ZArith List.
 From Coq Require Extraction.
 From Coq Require Import ExtrOcamlBasic.
-From Scenic Require Import C02.Checker C15.Determinism.
+From Scenic Require Import C02.Checker C15.Determinism C15.SpecOrder.
 Extraction Language OCaml.
-Extraction "model.ml" deps_of gather_ordered gather_set sample_all generate batch.
+Extraction "model.ml" deps_of gather_ordered gather_set sample_all generate batch
+  nsort present_sorted resolve prop_order object_dag.
